@@ -12,10 +12,12 @@ def main():
             regenerate()
         except Exception as e:
             print("table extraction failed (reported by the checks):", e)
-        rc = subprocess.call(["lake", "build"], cwd=core.LEAN)
-        if rc != 0:
-            # a failing proof module must not prevent the driver from being built
-            subprocess.call(["lake", "build", "pepperd"], cwd=core.LEAN)
+        # the driver first: a failing proof module must not prevent it from being built
+        subprocess.call(["lake", "build", "pepperd"], cwd=core.LEAN)
+        props = sorted(f[:-5] for f in os.listdir(os.path.join(core.LEAN, "PepperProps")) if f.endswith(".lean"))
+        for pmod in props:
+            rc = subprocess.call(["lake", "build", "PepperProps." + pmod], cwd=core.LEAN)
+            print("built PepperProps.%s rc=%d" % (pmod, rc), flush=True)
     return 0
 
 if __name__ == "__main__":
